@@ -2,7 +2,7 @@
 from . import common as C, storage_io as S
 
 MODULE = "AcqVerif.Props.C14"
-DRIVERS = ["acq_storage"]
+DRIVERS = ["acq_storage", "acq_runtime"]
 THEOREMS = ["AcqVerif.C14.fileWrite_ok", "AcqVerif.C14.C14_contents", "AcqVerif.C14.C14_contents_short_writes", "AcqVerif.C14.C14_grouping", "AcqVerif.C14.C14_uri"]
 ORACLES = {"raw-file-differs", "opened-path-differs"}
 INTERESTING = ("fw.short", "fw.zero", "uri.file", "pkt.2", "pkt.3", "fw.fail", "fw.zero3")
@@ -57,5 +57,20 @@ def run(ctx):
                                   "new raw\nset p:big2 -\nstart\nbig 1610612736 3\nbig 268435456 2\nstop\nclose\n"), "raw writer")
 
 
+    # the device writes what it is handed *while* it is handed it: in the running pipeline the sink gives the raw device a region of
+    # the ring and must keep it mapped until storage_append has returned — otherwise the producer overwrites the bytes being written
+    # (small rings, slow storage: every append is a scheduling point of the deterministic scheduler, and M1 fixes the order of
+    # channel_read_map / storage_append / channel_read_unmap decision by decision)
+    from . import rtx
+    thorough = ctx.tier == "thorough"
+    rel = lambda p: p["kind"] in ("crash", "diff") or "stored-" in p["msg"] or "packet-" in p["msg"]
+    rtx.pipeline_part(ctx, ["single", "delay", "two", "slowmon"], 30 if thorough else 6, 8 if thorough else 4, rel,
+                      "bytes handed to storage_append stay as they are until it returns (stored frames = camera frames, in order, pixel for pixel)")
+
+
 def replay(ctx, path):
+    import json
+    if "harness_input" in json.load(open(path)).get("replay", {}):
+        from . import rtx
+        return rtx.replay(ctx, path)
     return S.replay_file(ctx, path, ORACLES, False)
